@@ -98,11 +98,14 @@ class C08(Check):
         N = steps if (solver != 'scipy' or rng.random() < 0.5) else steps + rng.randint(1, 9)
         vec = (rng.random() < 0.5 or stratum == 'S-cols') and stratum != 'S-fortran'
         inputs = []
-        opnames = sorted({o for (_, o), i_ in net.inst.items() if models.LIB[i_['lib']]['in']})     # (readout operators take no input)
+        # every operator can be addressed; for a readout operator the addressed variable is the one it READS from its sibling
+        # (the extrinsic input then ADDS to the sibling's contribution)
+        opnames = sorted({o for (_, o) in net.inst})
+        reads_of = {o_['name']: o_.get('reads') for o_ in spec['ops'].values()}
         for i in range(rng.randint(1, 3)):
             opn = rng.choice(opnames)
             lib = [x['lib'] for (n, o), x in net.inst.items() if o == opn][0]
-            var = models.LIB[lib]['in']
+            var = models.LIB[lib]['in'] or reads_of[opn]
             have = [n for n in nodes if (n, opn) in net.inst]
             kind = rng.choice(['1d', '1d', 'n1', 'bcast', 'sub'])
             if stratum == 'S-cols' and i == 0:
@@ -136,7 +139,7 @@ class C08(Check):
             have = [n for n in nodes if (n, opn) in net.inst]
             if len(have) >= 2:
                 lib = [x['lib'] for (n, o), x in net.inst.items() if o == opn][0]
-                inputs = [{'id': 1, 'target': '/'.join(['all'] * levels) + f"/{opn}/{models.LIB[lib]['in']}", 'shape': 'cols',
+                inputs = [{'id': 1, 'target': '/'.join(['all'] * levels) + f"/{opn}/{models.LIB[lib]['in'] or reads_of[opn]}", 'shape': 'cols',
                            'op': opn, 'ncols': len(have)}]
                 vec = True
         cfg = {'dt': dt, 'steps': steps, 'N': N, 'solver': solver, 'solver_kw': kw, 'vectorize': vec,
